@@ -247,6 +247,36 @@ pub fn run(prop: &str, outdir: &str, seed: u64, thorough: bool) -> serde_json::V
         if made < 3 { st.sample(json!({"query": sql, "synthetic": syn, "strategy": if hard_eff {"Hard"} else {"Soft"}, "nodes": nodes, "derivations": selected.len(), "outcome": outcome})); }
         made += 1;
     }
+    // synthetic data declared for some of the protected tables only: whatever is accepted must not read the others raw
+    if prop == "C02" {
+        use qrlew::{hierarchy::Hierarchy, expr::Identifier, synthetic_data::SyntheticData};
+        let queries = ["SELECT t.age AS a, t.city AS c FROM users AS t", "SELECT MAX(t.age) AS m FROM users AS t", "SELECT t.amount AS a FROM orders AS t WHERE t.amount > 10",
+            "SELECT t.age AS a, o.amount AS b FROM users AS t JOIN orders AS o ON t.id = o.user_id", "SELECT t.age AS a FROM users AS t UNION SELECT o.user_id AS a FROM orders AS o",
+            "SELECT i.price AS p, c.pop AS q FROM items AS i JOIN cities AS c ON i.order_id = c.pop", "SELECT t.city AS c, MAX(t.income) AS m FROM users AS t GROUP BY t.city", "SELECT SUM(o.amount) AS s FROM orders AS o"];
+        let covers: [&[(&str, &str)]; 4] = [&[("orders_tab", "sd_orders")], &[("users_tab", "sd_users")], &[("cities_tab", "sd_cities")], &[("orders_tab", "sd_orders"), ("items_tab", "sd_items"), ("cities_tab", "sd_cities")]];
+        let protected = |n: &str| w.specs.iter().any(|t| t.protected && (t.name == n || t.path == n));
+        for cover in covers.iter() {
+            let sd = SyntheticData::new(cover.iter().map(|(p, s)| (vec![p.to_string()], Identifier::from(*s))).collect::<Hierarchy<Identifier>>());
+            for sql in queries.iter() {
+                let Ok(Ok(rel)) = catch_unwind(AssertUnwindSafe(|| to_relation(&w, sql))) else { continue };
+                st.evaluations += 1; st.distinct.insert(hash_str(&format!("{}{:?}", sql, cover)));
+                match catch_unwind(AssertUnwindSafe(|| rel.rewrite_with_differential_privacy(&w.relations, Some(sd.clone()), w.privacy_unit.clone(), dp_params()))) {
+                    Ok(Ok(rw)) => {
+                        st.bump("partial_synthetic_data_accepted");
+                        let out = rw.relation();
+                        for (ci, f) in out.schema().iter().enumerate() {
+                            if let Some(path) = crate::ir::unmechanised_lineage(out, ci, &protected, 0) {
+                                st.violation(json!({"kind":"protected-column-reaches-the-result-without-a-mechanism","class":"partial-synthetic-data","query":sql,"synthetic_data_for":cover.iter().map(|x| x.0).collect::<Vec<_>>(),"column":f.name(),"lineage":path,"event":rw.dp_event().to_string()}));
+                                break;
+                            }
+                        }
+                    }
+                    Ok(Err(_)) => st.bump("partial_synthetic_data_refused"),
+                    Err(_) => st.bump("partial_synthetic_data_panicked"),
+                }
+            }
+        }
+    }
     let header = "From QV Require Import Rules.Model Corr.Lib Corr.Rules.";
     let stem = if prop == "C13" { "c13_search" } else { "c02_search" };
     let checker = if prop == "C13" { "search_check" } else { "safety_check" };
